@@ -53,6 +53,14 @@ func main() {
 	if rp != nil {
 		r.SetReplay(rp)
 	}
+	if len(os.Args) > 3 && os.Args[3] == "--child" {
+		if err := r.ParseChildArgs(os.Args[3:]); err != nil {
+			fmt.Println(err)
+			os.Exit(2)
+		}
+		fn(r)
+		os.Exit(r.FinishChild())
+	}
 	fn(r)
 	os.Exit(r.Finish())
 }
